@@ -27,3 +27,12 @@ PROP = dict(
              harness=[_KIT, "collect/c10_stress_test.go"], budget={"quick": 30, "thorough": 120}),
     ],
 )
+
+import os, sys  # noqa: E402
+sys.path.insert(0, os.path.dirname(os.path.dirname(os.path.abspath(__file__))))
+import extstages  # noqa: E402
+# coverage extension CX5 (lib/ext/CX5.py, spec/ind/): UNBOUNDED safety of Deterministic.tla - an inductive invariant for a typed companion module, discharged
+# by TLAPS (arbitrary constants) and Apalache (symbolic integers), with a TLC check on the bounded models that the companion's transition relation
+# and properties are this module's. A proof obligation that fails or times out is a weak invariant or a tool limit, never an observation of the
+# code: the stages are advisory (logged, kept in the evidence, never decide).
+PROP["stages"] += extstages.pick("CX5", ["Deterministic-ref", "Deterministic-tlaps", "Deterministic-apalache"], advisory=True, tiers=("thorough",))
